@@ -106,7 +106,7 @@ impl Config {
     }
     /// Plans where `pin_object` on a default-space object is supported.
     pub fn supports_pin_object(&self) -> bool {
-        cfg!(any(feature = "var_a", feature = "var_c"))
+        cfg!(feature = "f_pin")
             && matches!(
                 self.plan.as_str(),
                 "Immix" | "StickyImmix" | "GenImmix" | "ConcurrentImmix" | "MarkSweep" | "PageProtect" | "NoGC"
@@ -125,6 +125,8 @@ pub fn variant_name() -> &'static str {
         "A"
     } else if cfg!(feature = "var_b") {
         "B"
+    } else if cfg!(feature = "var_d") {
+        "D"
     } else {
         "C"
     }
